@@ -2231,6 +2231,11 @@ class Walker:
     def _record_attr(self, base: Term, e: ast.Attribute) -> Optional[Term]:
         """A field of a NamedTuple record by name (the position every record class of that size gives the name), or a
         read-only property of the one record class of that size that has it."""
+        known = self.__dict__.get("record_of", {}).get(base)
+        if known is not None:
+            names = [f for f, _ in named_tuple_fields(self.repo, known)]
+            if e.attr in names:
+                return base[1][names.index(e.attr)]
         posn = {names.index(e.attr) for names in all_named_tuples(self.repo) if len(names) == len(base[1]) and e.attr in names}
         if len(posn) == 1:
             return base[1][posn.pop()]
@@ -2768,6 +2773,11 @@ class Walker:
         # Color(x) on an IntEnum of the constants module is the member equal to x (an error for any other x)
         if fn[0] == "K" and len(args) == 1 and not kwargs and any(c0 == fn[1] for c0, _ in getattr(self.repo, "enum_alias", {})):
             return args[0]
+        # rec._asdict() of a record whose class this walk knows: {field name: value}
+        if fn[0] == "attr" and fn[2] == "_asdict" and fn[1][0] == "tuple" and not args and not kwargs \
+                and self.__dict__.get("record_of", {}).get(fn[1]) is not None:
+            names = [f for f, _ in named_tuple_fields(self.repo, self.record_of[fn[1]])]
+            return ("dict", tuple((("const", f), v) for f, v in zip(names, fn[1][1])))
         # rec._replace(field=v) on a NamedTuple record known field by field: the record with that field exchanged
         if fn[0] == "attr" and fn[2] == "_replace" and fn[1][0] == "tuple" and not args and kwargs and all(k != "**" for k, _ in kwargs):
             cands = [names for names in all_named_tuples(self.repo) if len(names) == len(fn[1][1]) and all(k in names for k, _ in kwargs)]
@@ -2775,7 +2785,10 @@ class Walker:
                 items = list(fn[1][1])
                 for k, v in kwargs:
                     items[cands[0].index(k)] = v
-                return ("tuple", tuple(items))
+                rec = ("tuple", tuple(items))
+                if self.__dict__.get("record_of", {}).get(fn[1]) is not None:
+                    self.record_of[rec] = self.record_of[fn[1]]
+                return rec
         # calling a record whose class defines __call__
         if fn[0] == "tuple" and not any(a[0] == "star" for a in args):
             fn = ("attr", fn, "__call__")
@@ -2826,7 +2839,9 @@ class Walker:
                     if f not in vals and dflt is not None:
                         vals[f] = self._ev_in_module(dflt, self.repo.modules[self.repo.memo[("named_tuple_fields", cname)][0]])
                 if len(args) <= len(names) and set(vals) == set(names):
-                    return ("tuple", tuple(vals[f] for f in names))
+                    rec = ("tuple", tuple(vals[f] for f in names))
+                    self.__dict__.setdefault("record_of", {})[rec] = cname
+                    return rec
             if fn[1].startswith("opfython") and self.repo.has_class(cname):
                 self._site += 1
                 t = ("new", cname, args, kwargs, self._site)
